@@ -27,6 +27,32 @@ macro_rules! with_suite {
     };
 }
 
+/// A non-identity point of E(Fp) whose order divides the cofactor (so it lies outside G1): r * P for the
+/// `k`-th curve point P found from small x coordinates.
+pub fn torsion_g1(k: usize) -> bls12_381_plus::G1Projective {
+    use bls12_381_plus::group::Curve;
+    use bls12_381_plus::{G1Affine, G1Projective, Scalar};
+    let mut found = 0;
+    for x in 1u16..=4000 {
+        let mut enc = [0u8; 48];
+        enc[0] = 0x80;
+        enc[46] = (x >> 8) as u8;
+        enc[47] = x as u8;
+        if let Some(p) = Option::<G1Affine>::from(G1Affine::from_compressed_unchecked(&enc)) {
+            let p = G1Projective::from(p);
+            let q = p * (-Scalar::ONE) + p; // (r - 1) P + P
+            let qa = q.to_affine();
+            if !bool::from(qa.is_identity()) && !bool::from(qa.is_torsion_free()) {
+                if found == k {
+                    return q;
+                }
+                found += 1;
+            }
+        }
+    }
+    panic!("no torsion point found");
+}
+
 pub fn hx(b: &[u8]) -> String {
     if b.len() <= 96 {
         hex::encode(b)
